@@ -403,6 +403,7 @@ pub fn run(ctx: Ctx) -> ! {
     let r1 = run_part(&ctx, bound, cap);
     let r2 = crate::c20_net2::run_part(&ctx);
     let r3 = crate::c20_iface::run_part(&ctx);
+    let r4 = crate::c20_iface::run_two_peers(&ctx);
     if !r3.outcomes.contains_key("in-order") {
         mc_core::report::machinery_failure("C20: the interface grid delivered no configuration in order (vacuous or broken rig)");
     }
@@ -424,7 +425,7 @@ pub fn run(ctx: Ctx) -> ! {
         "distinct_outcomes(delivery orders summed over scenarios)" => r1.distinct_orders + r2.distinct_orders,
         "net1_scenarios" => r1.per_scenario,
         "net2_scenarios" => r2.per_scenario,
-        "net2_interface_grid" => json!({"configurations": r3.configs, "messages_dispatched": r3.messages, "outcomes": r3.outcomes, "per_configuration": r3.per_config,
+        "net2_interface_grid" => json!({"configurations": r3.configs, "messages_dispatched": r3.messages, "outcomes": r3.outcomes, "per_configuration": r3.per_config, "two_peer_configurations": r4.0, "two_peer_messages": r4.1,
             "rule": "one configuration = (queue shape, segments of the first large message, pipe capacity) executed on the real TcpInterface (dispatch(Send) for the whole queue, then the event loop) over an in-memory bearer inside a current-thread tokio runtime; each configuration run twice with identical observations; oracle: per mini-protocol arrival order = dispatch order, exactly once"}),
         "rule" => "states/transitions = scheduling points (one poll of one task of the real Muxer::run / Demuxer::run loops or an agent body) summed over all executed schedules; traces = complete schedules run to quiescence on the real code; every schedule with at most the stated number of deviations from the default scheduler is enumerated exactly once",
     };
